@@ -257,3 +257,105 @@ def front_text(front):
         out.append(str(len(f)))
         out += [str(x) for x in f]
     return " ".join(out)
+
+
+# --------------------------------------------------------------------------------------
+# c-revision: "no parameters exist" (theorem C19_none_cert_sound)
+# --------------------------------------------------------------------------------------
+
+def build_none_cert(n, ranks, conds, gpz, worlds, cap=1200):
+    """conds: [(cons, ante)] in listing order; worlds: tuples of bools in the Lean order; ranks aligned with worlds.
+    returns {'status': ok|cap|counter|unknown, 'pool': [(am, zm)], 'gp', 'gm', 'choices'}"""
+    import z3
+
+    import core
+
+    k = len(conds)
+    ver = [[wi for wi, w in enumerate(worlds) if core.c_ver(c, w)] for c in conds]
+    fal = [[wi for wi, w in enumerate(worlds) if core.c_fal(c, w)] for c in conds]
+    row = []
+    for w in worlds:
+        row.append([1 if core.c_ver(c, w) else 0 for c in conds] + [1 if core.c_fal(c, w) else 0 for c in conds])
+    total = 1
+    for v in ver:
+        total *= len(v)
+    if total > cap:
+        return {"status": "cap", "pool": [], "choices": total}
+    pool = []
+
+    def leaf_ok(ch, leaf):
+        am, zm = leaf
+        lk = rk = 0
+        lc = [0] * (2 * k)
+        rc = [0] * (2 * k)
+        for i in range(k):
+            for f, m in zip(fal[i], am[i]):
+                if m:
+                    lk += m * (ranks[ch[i]] + 1)
+                    rk += m * ranks[f]
+                    for p in range(2 * k):
+                        lc[p] += m * row[ch[i]][p]
+                        rc[p] += m * row[f][p]
+        if gpz:
+            for p in range(k):
+                lc[p] += zm
+        return rk < lk and all(rc[p] <= lc[p] for p in range(2 * k))
+
+    for ch in itertools.product(*ver):
+        if any(leaf_ok(ch, lf) for lf in pool):
+            continue
+        lam = [[z3.Int(f"l_{i}_{t}") for t in range(len(fal[i]))] for i in range(k)]
+        z = z3.Int("z")
+        s = z3.Solver()
+        s.set("timeout", 10000)
+        flat = [x for r_ in lam for x in r_]
+        for x in flat + [z]:
+            s.add(x >= 0)
+        if not gpz:
+            s.add(z == 0)
+        s.add(z3.Sum([lam[i][t] * ranks[f] for i in range(k) for t, f in enumerate(fal[i])] + [z3.IntVal(0)]) <
+              z3.Sum([lam[i][t] * (ranks[ch[i]] + 1) for i in range(k) for t, f in enumerate(fal[i])] + [z3.IntVal(0)]))
+        for p in range(2 * k):
+            rhs = [lam[i][t] * row[f][p] for i in range(k) for t, f in enumerate(fal[i]) if row[f][p]]
+            lhs = [lam[i][t] * row[ch[i]][p] for i in range(k) for t, f in enumerate(fal[i]) if row[ch[i]][p]]
+            if gpz and p < k:
+                lhs.append(z)
+            s.add(z3.Sum(rhs + [z3.IntVal(0)]) <= z3.Sum(lhs + [z3.IntVal(0)]))
+        r = s.check()
+        if r == z3.sat:
+            m = s.model()
+            val = lambda x: m.eval(x, model_completion=True).as_long()  # noqa: E731
+            pool.append(([[val(x) for x in r_] for r_ in lam], val(z)))
+            continue
+        if r != z3.unsat:
+            return {"status": "unknown", "pool": pool, "choices": total}
+        # no refutation of this choice: look for parameters
+        g = [z3.Int(f"g_{p}") for p in range(2 * k)]
+        q = z3.Solver()
+        q.set("timeout", 10000)
+        for x in g:
+            q.add(x >= 0)
+        if gpz:
+            for p in range(k):
+                q.add(g[p] == 0)
+        kap = lambda wi: ranks[wi] + z3.Sum([g[p] for p in range(2 * k) if row[wi][p]] + [z3.IntVal(0)])  # noqa: E731
+        for i in range(k):
+            for f in fal[i]:
+                q.add(kap(ch[i]) + 1 <= kap(f))
+        if q.check() == z3.sat:
+            m = q.model()
+            vals = [m.eval(x, model_completion=True).as_long() for x in g]
+            return {"status": "counter", "pool": pool, "gp": vals[:k], "gm": vals[k:], "choices": total}
+        return {"status": "unknown", "pool": pool, "choices": total}
+    return {"status": "ok", "pool": pool, "choices": total}
+
+
+def rpool_text(pool):
+    out = [str(len(pool))]
+    for am, zm in pool:
+        out.append(str(len(am)))
+        for ms in am:
+            out.append(str(len(ms)))
+            out += [str(x) for x in ms]
+        out.append(str(zm))
+    return " ".join(out)
